@@ -526,70 +526,21 @@ impl SubCheck for PartialSub {
 // ---------------------------------------------------------------------------------------------
 // I128Nanoseconds
 
-/// the documented split: sign taken from the high word, magnitude = |high| * 2^64 + low.
-/// Negative values with magnitude below 2^64 have no encoding (high would be "-0").
+/// the documented split (two's complement, bit by bit): value = high * 2^64 + low
 pub fn encode_i128(x: i128) -> Option<finst::I128Nanoseconds> {
-    let mag = x.unsigned_abs();
-    let high = (mag >> 64) as i64;
-    let low = mag as u64;
-    if x < 0 && high == 0 {
-        return None;
-    }
-    Some(finst::I128Nanoseconds { high: if x < 0 { -high } else { high }, low })
+    Some(finst::I128Nanoseconds { high: (x >> 64) as i64, low: x as u64 })
 }
 pub fn decode_i128(v: &finst::I128Nanoseconds) -> i128 {
-    let mag = ((v.high.unsigned_abs() as u128) << 64) | v.low as u128;
-    if v.high < 0 {
-        -(mag as i128)
-    } else {
-        mag as i128
-    }
-}
-
-/// what `Instant::try_new` returns if it shifts by `64 + low` instead of adding `low`
-/// (Err("PANIC") stands for a panic in the arithmetic under overflow checks)
-fn try_new_under_shift_defect(v: &finst::I128Nanoseconds) -> R {
-    let high_abs = v.high.unsigned_abs() as u128;
-    let shift = 64u128 + v.low as u128;
-    let checked = cfg!(debug_assertions);
-    let total: i128 = if shift >= 128 {
-        if checked {
-            return Err("PANIC".into());
-        }
-        high_abs.wrapping_shl((shift & 127) as u32) as i128
-    } else {
-        (high_abs << shift) as i128
-    };
-    let inst = if v.high < 0 {
-        if total == i128::MIN && checked {
-            return Err("PANIC".into());
-        }
-        total.wrapping_neg()
-    } else {
-        total
-    };
-    show_res(Instant::try_new(inst))
+    ((v.high as i128) << 64) | (v.low as i128)
 }
 
 pub fn instant_try_new(x: i128) -> Out {
-    let Some(enc) = encode_i128(x) else {
-        return Out::Unjudged("i128:negative-with-zero-high-word-has-no-encoding");
-    };
+    let enc = encode_i128(x).expect("every i128 has an encoding");
     let core = show_res(Instant::try_new(x));
-    let predicted = try_new_under_shift_defect(&enc);
     let ffi: R = match guard(|| fr(finst::Instant::try_new(finst::I128Nanoseconds { high: enc.high, low: enc.low }))) {
         Ok(r) => r,
         Err(p) => Err(format!("PANIC {p}")),
     };
-    if ffi != core {
-        let same_as_predicted = match (&ffi, &predicted) {
-            (Err(a), Err(b)) if b == "PANIC" => a.starts_with("PANIC panic@") && (a.contains("temporal_capi/src/instant.rs:27:") || a.contains("temporal_capi/src/instant.rs:29:")),
-            (a, b) => a == b,
-        };
-        if same_as_predicted {
-            return Out::Receiver("__i128-shift".into(), ffi, core);
-        }
-    }
     Out::Both(ffi, core)
 }
 
@@ -598,9 +549,6 @@ pub fn instant_epoch_nanoseconds(x: i128) -> Out {
         return Out::NoInput("instant-out-of-range");
     };
     let got = decode_i128(&finst::Instant(ci).epoch_nanoseconds());
-    if got != x && x < 0 && x.unsigned_abs() < (1u128 << 64) && got == -x {
-        return Out::Receiver("__i128-sign".into(), Ok(got.to_string()), Ok(x.to_string()));
-    }
     Out::Both(Ok(got.to_string()), Ok(x.to_string()))
 }
 
